@@ -29,10 +29,11 @@ const (
 	MkBridgeCall                     // crosschain.bridgeCall of FX with msg.value: transfer + outgoing bridge call
 	MkCancel                         // crosschain.cancelSendToExternal of a pool entry the frame owns
 	MkIncreaseFee                    // crosschain.increaseBridgeFee on a pool entry, paid with msg.value
+	MkRewards                        // staking.delegationRewards (declared read-only) for a delegation that exists
 )
 
 func (k MarkerKind) String() string {
-	return [...]string{"approve", "delegate", "xchain", "transferFail", "approveBad", "delegateFail", "bridgeCall", "cancel", "increaseFee"}[k]
+	return [...]string{"approve", "delegate", "xchain", "transferFail", "approveBad", "delegateFail", "bridgeCall", "cancel", "increaseFee", "rewards"}[k]
 }
 
 func (k MarkerKind) designedOK() bool {
@@ -82,6 +83,7 @@ type Node struct {
 	Slot     uint64       // sstore
 	Val      uint64
 	Tag      uint64 // log
+	GasOverride uint64 // frame, pcall: gas handed to the callee when != 0 (starved variants); 1 = none
 }
 
 func frameAddr(i int) common.Address {
@@ -102,14 +104,14 @@ func compile(f *Node) []byte {
 		case NLog:
 			a.Log0(n.Tag)
 		case NFrame:
-			a.Call(n.CallKind, frameAddr(n.Addr), 0, nil, nil)
+			a.Call(n.CallKind, frameAddr(n.Addr), callGas(n, budget(n)), nil, nil)
 			if n.Caught {
 				a.Ignore()
 			} else {
 				a.RequireSuccess()
 			}
 		case NPCall:
-			a.Call(n.CallKind, n.M.Target, 0, n.M.Value, n.M.Data)
+			a.Call(n.CallKind, n.M.Target, callGas(n, pcallGas), n.M.Value, n.M.Data)
 			if n.Caught {
 				a.Ignore()
 			} else {
@@ -126,6 +128,35 @@ func compile(f *Node) []byte {
 		a.Stop()
 	}
 	return a.B
+}
+
+// Gas handed to callees is explicit: a frame that burns its gas (INVALID, write protection, a precompile error)
+// must not starve the rest of the tree when the gas limit is ample.
+const pcallGas = 110_000
+
+func callGas(n *Node, dflt uint64) uint64 {
+	if n.GasOverride != 0 {
+		return n.GasOverride // note: Asm.Call treats 0 as "all remaining", so a starved call passes at least 1
+	}
+	return dflt
+}
+
+// budget: gas that lets frame f do everything it is designed to do
+func budget(f *Node) uint64 {
+	var b uint64 = 4_000
+	for _, n := range f.Body {
+		switch n.Kind {
+		case NSStore:
+			b += 23_000
+		case NLog:
+			b += 1_500
+		case NPCall:
+			b += pcallGas + 12_000 + 16*uint64(len(n.M.Data))
+		case NFrame:
+			b += budget(n) + budget(n)/32 + 6_000
+		}
+	}
+	return b
 }
 
 func frames(f *Node, out *[]*Node) {
@@ -170,6 +201,13 @@ func coqEnd(e string) string {
 
 func storKey(ctx int, slot uint64) int64 { return int64(ctx)*1000 + int64(slot) }
 
+// rewardsWrite: does delegationRewards write the native store outside any native action on the code under
+// test (finding C09-1)? Decided once per run by observation (World.probeRewards); it only selects how the
+// marker is rendered for the model, so that a fixed tree is checked as strictly as any other.
+var rewardsWrite bool
+
+const rewardsID = 9000 // every executed delegationRewards bumps the same counter: one marker id, counted
+
 const (
 	logBase      = 1000 // log id of a precompile's own EVM log = logBase + marker id
 	transferBase = 5000 // marker id of the value transfer that precedes a payable precompile call
@@ -184,9 +222,16 @@ func coqPCallBody(m *Marker, executed bool) []string {
 	var body []string
 	if m.Kind.hasValue() {
 		t := transferBase + m.ID
-		body = append(body, fmt.Sprintf("(Action %s [%d])", coqList([]string{"(NStep " + coqEff(t, true, false) + ")"}), t))
+		// the bank events of the transfer carry the same amount as the action's: attributed to the marker itself
+		body = append(body, fmt.Sprintf("(Action %s [%d])", coqList([]string{"(NStep " + coqEff(t, true, false) + ")"}), m.ID))
 	}
 	if !executed {
+		return body
+	}
+	if m.Kind == MkRewards {
+		if rewardsWrite { // a bare native write: no ExecuteNativeAction around it
+			body = append(body, "(NStep "+coqEff(rewardsID, true, false)+")")
+		}
 		return body
 	}
 	switch {
@@ -228,6 +273,10 @@ func designedCoq(f *Node, ctx int, static bool) (body []string, end string) {
 			body = append(body, fmt.Sprintf("(Frame %s %s %s)", coqList(b), coqEnd(e), lib.Bool(n.Caught)))
 		case NPCall:
 			m := n.M
+			if m.Kind == MkRewards { // a read-only method runs under every opcode
+				body = append(body, fmt.Sprintf("(Frame %s Return %s)", coqList(coqPCallBody(m, true)), lib.Bool(n.Caught)))
+				continue
+			}
 			if n.CallKind != lib.CALL {
 				// write method through STATICCALL/DELEGATECALL/CALLCODE: "write protection" before anything runs
 				// (CALLCODE moves no value to the precompile: the transfer is caller -> caller)
@@ -293,7 +342,7 @@ func tracedFrameCoq(f *TFrame, byInput map[string]*Marker, addrIdx map[common.Ad
 			return "(Frame nnil Fail true)", false
 		}
 		body := coqPCallBody(m, executed)
-		if f.Typ != vm.CALL { // no value moves to the precompile, nothing runs
+		if f.Typ != vm.CALL && m.Kind != MkRewards { // no value moves to the precompile, nothing runs
 			body = nil
 		}
 		if f.Err != "" && m.Kind.designedOK() {
@@ -314,13 +363,13 @@ func tracedFrameCoq(f *TFrame, byInput map[string]*Marker, addrIdx map[common.Ad
 func describe(f *Node, d int) string {
 	var sb strings.Builder
 	ind := strings.Repeat(" ", d)
-	fmt.Fprintf(&sb, "%sframe#%d@%d %s caught=%v end=%s\n", ind, f.ID, f.Addr, f.CallKind, f.Caught, f.End)
+	fmt.Fprintf(&sb, "%sframe#%d@%d %s caught=%v end=%s%s\n", ind, f.ID, f.Addr, f.CallKind, f.Caught, f.End, gasNote(f))
 	for _, n := range f.Body {
 		switch n.Kind {
 		case NFrame:
 			sb.WriteString(describe(n, d+1))
 		case NPCall:
-			fmt.Fprintf(&sb, "%s pcall#%d %s %s caught=%v ctx=%d\n", ind, n.M.ID, n.M.Kind, n.CallKind, n.Caught, n.M.Ctx)
+			fmt.Fprintf(&sb, "%s pcall#%d %s %s caught=%v ctx=%d%s\n", ind, n.M.ID, n.M.Kind, n.CallKind, n.Caught, n.M.Ctx, gasNote(n))
 		case NSStore:
 			fmt.Fprintf(&sb, "%s sstore %d=%d\n", ind, n.Slot, n.Val)
 		case NLog:
@@ -328,4 +377,11 @@ func describe(f *Node, d int) string {
 		}
 	}
 	return sb.String()
+}
+
+func gasNote(n *Node) string {
+	if n.GasOverride != 0 {
+		return fmt.Sprintf(" gas=%d", n.GasOverride)
+	}
+	return ""
 }
